@@ -17,7 +17,10 @@ use std::sync::{Arc, Mutex};
 use std::time::{Duration, Instant};
 
 #[derive(Clone, Debug)]
-pub struct Case { pub lens: Vec<usize>, pub cuts: Vec<usize>, pub gap: u64, pub end: String, pub endpack: bool, pub inputs: bool, pub act: u8 }
+pub struct Case { pub lens: Vec<usize>, pub cuts: Vec<usize>, pub gap: u64, pub end: String, pub endpack: bool, pub inputs: bool, pub act: u8,
+    /// the client's socket comes from the GUI client's own `tcp_from_args` (a TCP connection to a local listener that is
+    /// piped to the reference server) instead of a socket pair
+    pub tcp: bool }
 
 /// PDU i: a fast-path bitmap update with one raw 32 bpp rectangle of `n` pixels in a row, dest_left = i
 /// `n` = pixels + 100 * variant: variant 1 puts a zero-length update (synchronize) in front of
@@ -87,7 +90,8 @@ pub fn run(c: &Case) -> Outcome {
     let t_silent = 120 + t_send + 350;
     // the silent period: from the server's last send (Mark) the receive thread has 350 ms; the observer
     // takes its snapshot then and the server goes on 150 ms after having been told so (Await)
-    script.push(Act::Mark); script.push(Act::Await(6000)); script.push(Act::Pause(150));
+    let rv = conn::Rendezvous::default();
+    script.push(Act::Mark(rv.clone())); script.push(Act::Await(rv.clone(), 6000)); script.push(Act::Pause(150));
     if !c.endpack && !endb.is_empty() { script.push(Act::Send(endb.clone())); }
     if c.end == "dpuhold" { script.push(Act::Pause(2600)); script.push(Act::Close); }
     match c.end.as_str() { "notify" => { script.push(Act::CloseNotify); script.push(Act::Pause(50)); script.push(Act::Close); } "close" => script.push(Act::Close), _ => {} }
@@ -100,10 +104,38 @@ pub fn run(c: &Case) -> Outcome {
     let da_len = refsrv::mcs_sdin(1003, &refsrv::demand_active(0x103ea, b"RDP\0", &caps)).len();
     let alens: Vec<usize> = if c.act == 0 { vec![] } else { let mut v = vec![da_len]; for b in &[refsrv::synchronize(0x103ea, 1002), refsrv::control(0x103ea, 4, 0, 0), refsrv::control(0x103ea, 2, 1004, 0x03ea), refsrv::font_map(0x103ea)] { v.push(refsrv::mcs_sdin(1003, b).len()); } v };
     let srv = SrvCfg { sel: 0, id: 1, uid: 1004, version: 0x80004, license_new: false, share: 0x103ea, caps, source: b"RDP\0".to_vec(), chal_flags: 0, inputs: vec![], script, reactivate: None, reuse: 0, jrefuse: 0, ber: 0 };
-    let (a, b) = UnixStream::pair().expect("socketpair");
-    let fd = a.as_raw_fd() as usize;
+    if c.tcp {
+        // the GUI client's own way to its socket: tcp_from_args, connected to a local listener whose other side is piped,
+        // byte for byte, to the reference server
+        let listener = std::net::TcpListener::bind("127.0.0.1:0").expect("listener");
+        let port = listener.local_addr().unwrap().port();
+        let (pa, b) = UnixStream::pair().expect("socketpair");
+        std::thread::spawn(move || { if let Ok((t, _)) = listener.accept() { pump(t, pa); } });
+        let a = match crate::gui::verif_tcp_from_args("127.0.0.1", port) { Ok(a) => a, Err(_) => { return Outcome { silent: vec![], fin: vec![], exited: false, status: "E@tcp".into(), lens, quiet, inputs_done: 0, inputs_asked: c.inputs, alens, das, ca: 0 }; } };
+        let fd = a.as_raw_fd() as usize;
+        run_on(c, a, fd, b, srv, cfg, rv, t_silent, lens, quiet, alens, das)
+    } else {
+        let (a, b) = UnixStream::pair().expect("socketpair");
+        let fd = a.as_raw_fd() as usize;
+        run_on(c, a, fd, b, srv, cfg, rv, t_silent, lens, quiet, alens, das)
+    }
+}
+
+/// copy bytes both ways between the accepted TCP connection and the socket pair of the reference server; an end of
+/// stream on one side is passed on as a shutdown of the other
+fn pump(t: std::net::TcpStream, u: UnixStream) {
+    use std::io::{Read, Write};
+    let (mut t2, mut u2) = (t.try_clone().expect("clone"), u.try_clone().expect("clone"));
+    let (mut t1, mut u1) = (t, u);
+    let h = std::thread::spawn(move || { let mut buf = [0u8; 16384]; loop { match t2.read(&mut buf) { Ok(0) | Err(_) => { let _ = u2.shutdown(std::net::Shutdown::Write); break; } Ok(n) => { if u2.write_all(&buf[..n]).is_err() { break; } } } } });
+    let mut buf = [0u8; 16384];
+    loop { match u1.read(&mut buf) { Ok(0) | Err(_) => { let _ = t1.shutdown(std::net::Shutdown::Write); break; } Ok(n) => { if t1.write_all(&buf[..n]).is_err() { break; } } } }
+    let _ = h.join();
+}
+
+#[allow(clippy::too_many_arguments)]
+fn run_on<S: 'static + std::io::Read + std::io::Write + Send>(c: &Case, a: S, fd: usize, b: UnixStream, srv: SrvCfg, cfg: Cfg, rv: conn::Rendezvous, t_silent: u64, lens: Vec<usize>, quiet: Vec<usize>, alens: Vec<usize>, das: Vec<usize>) -> Outcome {
     let rawlog = Arc::new(Mutex::new(vec![]));
-    *conn::MARK.lock().unwrap() = None; conn::SNAPPED.store(false, std::sync::atomic::Ordering::SeqCst);
     let th = std::thread::spawn(move || conn::serve(b, srv, vec![0; 16], rawlog));
     let mut out = Outcome { silent: vec![], fin: vec![], exited: false, status: "ok".into(), lens, quiet, inputs_done: 0, inputs_asked: c.inputs, alens, das, ca: 0 };
     let mut con = Connector::new().screen(cfg.w, cfg.h).credentials(cfg.dom.clone(), cfg.user.clone(), cfg.pw.clone()).use_nla(false).layout(conn::layout_of(cfg.lay)).name(cfg.name.clone());
@@ -121,11 +153,11 @@ pub fn run(c: &Case) -> Outcome {
     let mut n_in = 0;
     loop {
         let el = t0.elapsed().as_millis() as u64;
-        let marked = conn::MARK.lock().unwrap().map(|m| m.elapsed().as_millis() as u64);
+        let marked = rv.mark.lock().unwrap().map(|m| m.elapsed().as_millis() as u64);
         while let Ok(b) = rx.try_recv() { got.push(b.dest_left); }
         if snap.is_none() && (marked.map_or(false, |m| m >= 350) || el >= t_silent + 6000) {
             snap = Some(got.clone()); deadline_total = el + 150 + 900;
-            conn::SNAPPED.store(true, std::sync::atomic::Ordering::SeqCst);
+            rv.snapped.store(true, std::sync::atomic::Ordering::SeqCst);
         }
         if c.inputs && n_in < 6 && el > 130 && snap.is_none() {
             if let Ok(mut g) = shared.try_lock() { let _ = g.try_write(RdpEvent::Pointer(PointerEvent { x: n_in, y: 1, button: PointerButton::None, down: false })); n_in += 1; }
@@ -156,8 +188,8 @@ fn show(v: &[u16]) -> String { if v.is_empty() { "-".into() } else { v.iter().ma
 pub fn line_of(c: &Case, lens: &[usize], quiet: &[usize], alens: &[usize]) -> String { line_of_d(c, lens, quiet, alens, &[]) }
 pub fn line_of_d(c: &Case, lens: &[usize], quiet: &[usize], alens: &[usize], das: &[usize]) -> String {
     let j = |v: &[usize]| if v.is_empty() { "-".to_string() } else { v.iter().map(|x| x.to_string()).collect::<Vec<_>>().join(",") };
-    format!("gui das={} act={} alens={} lens={} cuts={} gap={} end={} endpack={} inputs={} plens={} quiet={}", j(das), c.act, j(alens),
-        c.lens.iter().map(|x| x.to_string()).collect::<Vec<_>>().join(","), j(&c.cuts), c.gap, c.end, c.endpack as u8, c.inputs as u8, j(lens), j(quiet))
+    format!("gui das={} act={} alens={} lens={} cuts={} gap={} end={} endpack={} inputs={} plens={} quiet={}{}", j(das), c.act, j(alens),
+        c.lens.iter().map(|x| x.to_string()).collect::<Vec<_>>().join(","), j(&c.cuts), c.gap, c.end, c.endpack as u8, c.inputs as u8, j(lens), j(quiet), if c.tcp { " tcp=1" } else { "" })
 }
 
 fn emit_outcome(em: &mut Emitter, c: &Case, o: Outcome) {
@@ -172,7 +204,7 @@ fn emit_outcome(em: &mut Emitter, c: &Case, o: Outcome) {
 pub fn run_case(toks: &[&str], em: &mut Emitter) {
     let get = |k: &str| -> String { toks.iter().find(|x| x.starts_with(&format!("{}=", k))).map(|x| x[k.len() + 1..].to_string()).unwrap_or_default() };
     let list = |k: &str| -> Vec<usize> { get(k).split(',').filter_map(|x| x.parse().ok()).collect() };
-    let c = Case { lens: list("lens"), cuts: list("cuts"), gap: get("gap").parse().unwrap_or(0), end: get("end"), endpack: get("endpack") == "1", inputs: get("inputs") == "1", act: get("act").parse().unwrap_or(0) };
+    let c = Case { lens: list("lens"), cuts: list("cuts"), gap: get("gap").parse().unwrap_or(0), end: get("end"), endpack: get("endpack") == "1", inputs: get("inputs") == "1", act: get("act").parse().unwrap_or(0), tcp: get("tcp") == "1" };
     watch_begin(&line_of(&c, &[], &[], &[]));
     let o = run(&c);
     emit_outcome(em, &c, o);
@@ -203,7 +235,7 @@ pub fn generate(thorough: bool, seed: u64, part: (usize, usize), em: &mut Emitte
             let (cuts, gap) = if has_react { (bounds.clone(), gap.max(10)) } else { (cuts, gap) };
             for endpack in &[false, true] {
                 if *endpack && (*end == "notify" || *end == "close" || has_react) { continue; }
-                cases.push(Case { lens: lens.clone(), cuts: cuts.clone(), gap, end: end.to_string(), endpack: *endpack, inputs: fam % 2 == 1, act: ((fam + 2 * ei + *endpack as usize) % 4) as u8 });
+                cases.push(Case { lens: lens.clone(), cuts: cuts.clone(), gap, end: end.to_string(), endpack: *endpack, inputs: fam % 2 == 1, act: ((fam + 2 * ei + *endpack as usize) % 4) as u8, tcp: false });
             }
         }
     }
@@ -217,7 +249,14 @@ pub fn generate(thorough: bool, seed: u64, part: (usize, usize), em: &mut Emitte
         let has_react = lens.iter().any(|x| x / 100 == 6);
         let cuts: Vec<usize> = if has_react { lens.iter().flat_map(|k| frames_of(0, *k).into_iter().map(|f| f.len()).collect::<Vec<_>>()).scan(0, |a, x| { *a += x; Some(*a) }).collect() }
             else { (0..nc).map(|_| r.range(1, total as u64 - 1) as usize).collect() };
-        cases.push(Case { lens, cuts, gap: if has_react { 15 } else { *r.pick(&[0u64, 0, 10, 30]) }, end: r.pick(&ends).to_string(), endpack: !has_react && r.chance(1, 4), inputs: r.chance(1, 2), act: r.below(4) as u8 });
+        cases.push(Case { lens, cuts, gap: if has_react { 15 } else { *r.pick(&[0u64, 0, 10, 30]) }, end: r.pick(&ends).to_string(), endpack: !has_react && r.chance(1, 4), inputs: r.chance(1, 2), act: r.below(4) as u8, tcp: false });
+    }
+    // the socket as the GUI client's main makes it (tcp_from_args): PDUs whose halves travel in two TLS records 5.6 s apart
+    // (a slow link, a busy server) are still read and dispatched, and the thread goes on; and one ordinary run on that socket
+    {
+        let plen: usize = frames_of(0, 4).iter().map(|f| f.len()).sum();
+        cases.push(Case { lens: vec![4], cuts: vec![plen / 2], gap: 5600, end: "dpu".into(), endpack: false, inputs: false, act: 0, tcp: true });
+        cases.push(Case { lens: vec![3, 2], cuts: vec![], gap: 0, end: "close".into(), endpack: false, inputs: true, act: 1, tcp: true });
     }
     let mine: Vec<Case> = cases.into_iter().enumerate().filter(|(i, _)| i % part.1 == part.0).map(|(_, c)| c).collect();
     // the cases are timing-bound, not CPU-bound: run them concurrently
